@@ -85,7 +85,7 @@ def uniform_swing(h):
     c = qr.calls[0]
     X = c["x"].frame
     h.ensures("design_is_intercept_only", list(X.cols) == ["intercept"] and z3.is_true(z3.simplify(real(X.cols["intercept"].t) == 1)))
-    h.ensures("fit_rows_weights_response", frames.same_rows(X.axis, t.rep.axis) and z3.eq(c["weights"].t, t.rep.col("last_election_results_turnout").t) and z3.eq(c["y"].t, t.rep.col("residuals_turnout").t) and c["taus"] == 0.5)
+    h.ensures("fit_rows_weights_response", frames.same_rows(X.axis, t.rep.axis) and z3.eq(c["weights"].t, t.rep.col("last_election_results_turnout").t) and z3.eq(c["y"].t, t.rep.col("residuals_turnout").t) and c["taus"] == 0.5, replay=_us_rp)
     h.ensures("fit_is_the_unregularised_weighted_median_problem", c["regularize_intercept"] is False and c["fit_intercept"] is True and c["n_feat_ignore_reg"] == 0, why=f"request: regularize_intercept={c['regularize_intercept']!r} fit_intercept={c['fit_intercept']!r}", replay=_us_rp)
     m = qr.coefs["intercept"]
     h.syms["m"] = m
